@@ -3,6 +3,7 @@
 from __future__ import annotations
 
 import ast
+from typing import Any
 
 from ..context import Ctx
 from ..loader import AnalysisError, norm, own_nodes
@@ -56,6 +57,38 @@ def check(ctx: Ctx) -> list[RuleResult]:
                     return True
         return False
 
+    # "leaves the gateway running exactly as before": _resume() puts back what _pause() saved *on the objects it finds* - so the
+    # engine's transport/protocol references it works through must be the live ones again by the time it runs. A store to one of
+    # them inside the bracket that _resume() can still see resumes (say) a temporary transport and leaves the live source paused
+    eng_pause, eng_resume = repo.func("ramses_tx.gateway.Engine._pause"), repo.func("ramses_tx.gateway.Engine._resume")
+    via_attrs = {n.value.attr for g9 in (eng_pause, eng_resume) for n in own_nodes(g9.node) if isinstance(n, ast.Attribute) and isinstance(n.value, ast.Attribute) and isinstance(n.value.value, ast.Name) and n.value.value.id == "self"}
+    if not via_attrs:
+        raise AnalysisError("Engine._pause/_resume: the objects they act through were not found")
+    for f in callers:
+        cfg9 = ctx.plain_cfg(f)
+        res9 = [x for x in cfg9.nodes if x.ast is not None and x.kind == "stmt" and any(isinstance(c, ast.Call) and method_call("_resume")(c) for c in ast.walk(x.ast))]
+        pau9 = [x for x in cfg9.nodes if x.ast is not None and x.kind == "stmt" and any(isinstance(c, ast.Call) and method_call("_pause")(c) for c in ast.walk(x.ast))]
+        r1.instances += 1
+        r1.nontrivial += 1
+        bad9 = []
+        for x in cfg9.nodes:
+            if x.ast is None or x.kind != "stmt" or not isinstance(x.ast, (ast.Assign, ast.AnnAssign, ast.AugAssign)):
+                continue
+            tg9 = x.ast.targets if isinstance(x.ast, ast.Assign) else [x.ast.target]
+            if not any(isinstance(t, ast.Attribute) and isinstance(t.value, ast.Name) and t.value.id == "self" and t.attr in via_attrs for t0 in tg9 for t in ast.walk(t0) if isinstance(t, ast.Attribute) and isinstance(t.ctx, ast.Store)):
+                continue
+            after_pause = any(x.id in cfg9.reachable_from(p9.id) for p9 in pau9)
+            before_resume = any(r9.id in cfg9.reachable_from(x.id) for r9 in res9)
+            if after_pause and before_resume:
+                # ...unless it is put back before _resume(): a later store of the same attribute that dominates the resume
+                doms9 = cfg9.dominators()
+                restored = any(y.id != x.id and y.id in cfg9.reachable_from(x.id) and isinstance(y.ast, ast.Assign) and norm(y.ast.targets[0]) == norm(tg9[0]) and all(y.id in doms9[r9.id] for r9 in res9 if r9.id in cfg9.reachable_from(x.id)) for y in cfg9.nodes if y.ast is not None and y.kind == "stmt")
+                if not restored:
+                    bad9.append(x)
+        if bad9:
+            r1.fail(f"{f.short}:engine-reference-swapped-inside-the-bracket", f.loc(bad9[0].ast), f"`{norm(bad9[0].ast)[:70]}` re-binds an object Engine._pause()/_resume() act through ({sorted(via_attrs)}) between the pause and the resume: _resume() then resumes the substitute and the live source stays paused - the gateway is not running as before")
+        else:
+            r1.ok({"function": f.short, "engine_references_stable_inside_the_bracket": sorted(via_attrs)})
     for need in ("ramses_rf.gateway.Gateway.get_state", "ramses_rf.gateway.Gateway._restore_cached_packets"):
         nf = repo.func(need)
         if nf in callers:
@@ -417,6 +450,67 @@ def check(ctx: Ctx) -> list[RuleResult]:
     else:
         r4.fail(f"{daf.short}:merge-without-time-window", daf.loc(rets[0]), "detect_array_fragment no longer bounds the time between the two packets")
     out.append(r4)
+
+    # ---- R7 ---------------------------------------------------------------------------
+    # objects change class at run time (`self.__class__ = <more specific class>`: a generic HVAC device once its role is
+    # eavesdropped, a zone once its type is known) and the new class's __init__ never runs. Every instance attribute the new class's
+    # methods read must therefore exist already: set by the __init__ chain of the class the object was created as, or defaulted at
+    # class level - else the first view that touches it raises AttributeError, for exactly the devices nobody configured
+    r7 = RuleResult("R7", "classes an object is promoted to add no instance state of their own", "for every (creation class -> promoted class) pair, each self attribute read by the promoted class's methods is set by the creation class's __init__ chain or has a class-level default", min_instances=8)
+    pairs7: list[tuple[Any, Any]] = []
+    dh = repo.classes.get("ramses_rf.device.base.DeviceHvac")
+    zn = repo.classes.get("ramses_rf.system.zones.Zone")
+    if dh is None or zn is None:
+        raise AnalysisError("DeviceHvac / Zone not found")
+    promo_sites = [f for f in repo.funcs.values() if f.module.name.startswith("ramses_rf") and any(isinstance(n, ast.Attribute) and n.attr == "__class__" and isinstance(n.ctx, ast.Store) for n in own_nodes(f.node))]
+    if len(promo_sites) < 2:
+        raise AnalysisError(f"expected the device and zone promotion sites (`self.__class__ = ...`), found {[f.short for f in promo_sites]}")
+    # the classes a generic HVAC device can become are the ones the eavesdropping table names (folded on every run)
+    vc = ctx.const("ramses_tx.ramses", "HVAC_KLASS_BY_VC_PAIR")
+    slugs7 = {str(x) for x in vc.values()} if hasattr(vc, "values") else set()
+    if not slugs7:
+        raise AnalysisError("HVAC_KLASS_BY_VC_PAIR does not fold to a table of device classes")
+    for t in dh.all_subclasses():
+        sl = t.class_attr("_SLUG")
+        slug = ctx.consts.eval_in(next(iter(t.methods.values())), sl) if sl is not None and t.methods else None
+        if slug is None and sl is not None:
+            slug = norm(sl).rsplit(".", 1)[-1]
+        if str(slug) in slugs7:
+            pairs7.append((dh, t))
+    for t in zn.all_subclasses():
+        pairs7.append((zn, t))
+
+    def init_attrs(ci) -> set[str]:
+        res = set()
+        for k in ci.mro:
+            m = k.methods.get("__init__")
+            if m is not None:
+                for n in own_nodes(m.node):
+                    if isinstance(n, ast.Attribute) and isinstance(n.ctx, ast.Store) and isinstance(n.value, ast.Name) and n.value.id == "self":
+                        res.add(n.attr)
+        return res
+
+    for src7, tgt7 in pairs7:
+        r7.instances += 1
+        r7.nontrivial += 1
+        have = init_attrs(src7)
+        extra = init_attrs(tgt7) - have
+        extra = {a for a in extra if not any(k.class_attr(a) is not None for k in tgt7.mro)}
+        hits = []
+        for a in sorted(extra):
+            for k in tgt7.mro:
+                for m in k.methods.values():
+                    if m.name == "__init__":
+                        continue
+                    for n in own_nodes(m.node):
+                        if isinstance(n, ast.Attribute) and n.attr == a and isinstance(n.ctx, ast.Load) and isinstance(n.value, ast.Name) and n.value.id == "self":
+                            hits.append((a, m, n))
+        if hits:
+            a, m, n = hits[0]
+            r7.fail(f"{tgt7.name}:state-missing-after-promotion:{a}", m.loc(n), f"an object created as {src7.name} and promoted to {tgt7.name} (`self.__class__ = ...`, no __init__) has no attribute `{a}` (set only in {tgt7.name}'s own __init__ chain, no class-level default), but {m.short} reads self.{a}: AttributeError from {'a public view' if m.is_property else 'a method'} of exactly the devices/zones whose class was learnt from traffic", [f"{len(hits)} read(s) of {sorted({h[0] for h in hits})}"])
+        else:
+            r7.ok({"promotion": f"{src7.name} -> {tgt7.name}", "instance_state_added": sorted(extra)})
+    out.append(r7)
     return out
 
 
